@@ -203,6 +203,23 @@ impl CGen {
 
     fn utxos_expr(&mut self) -> E {
         let n = 1 + self.r.below(3) as usize;
+        // a reference written as text, `txid#index`: well formed in every spelling the reader admits, and not
+        if self.r.chance(1, 8) {
+            let u = self.utxo_ref();
+            let h = hx(&u.txid);
+            let text = match self.r.below(if self.malformed { 9 } else { 4 }) {
+                0 => format!("{h}#{}", u.index),
+                1 => format!("{}#{}", h.to_uppercase(), u.index),
+                2 => format!("{h}#+{}", u.index),
+                3 => format!("{h}#0{}", u.index),
+                4 => format!("{h}{}", u.index),
+                5 => format!("{h}#"),
+                6 => format!("{h}#4294967296"),
+                7 => format!("{}#1", &h[1..]),
+                _ => format!("{h}#-1"),
+            };
+            return E::String(text);
+        }
         if self.r.chance(1, 2) {
             E::UtxoRefs((0..n).map(|_| self.utxo_ref()).collect())
         } else {
@@ -342,6 +359,34 @@ impl CGen {
                 fields.push(("script", E::Bytes(self.r.bytes(5))));
             }
             t.adhoc.push(adhoc("cardano_publish", fields));
+        }
+        if self.r.chance(1, 6) {
+            // 1-2 vote delegations: the stake credential of every kind of address that has one (stake key, stake
+            // script, base address delegating to a key or to a script, with a key or a script payment part), the
+            // DRep as bytes or as a hash; sometimes an address without a stake credential
+            for _ in 0..1 + self.r.below(2) {
+                let stake = match self.r.below(8) {
+                    0 => E::Address(stake_addr(true, 3)),
+                    1 => E::Address(stake_addr(false, 4)),
+                    2 => E::Address(base_addr(0x31, 0x32, false)),
+                    3 => E::Address(base_addr(0x31, 0x33, true)),
+                    4 => {
+                        // script payment part: type 1 (delegating to a key) or 3 (to a script)
+                        let mut a = base_addr(0x35, 0x36, self.r.chance(1, 2));
+                        a[0] |= 0x10;
+                        E::Address(a)
+                    }
+                    5 => E::Bytes(stake_addr(true, 7)),
+                    6 => E::Address(ADDR_A.to_vec()),
+                    _ => E::Address(stake_addr(true, 5)),
+                };
+                let drep = if self.r.chance(1, 2) { E::Bytes(self.hash_bytes(28)) } else { E::Hash(self.hash_bytes(28)) };
+                let mut fields = vec![("stake", stake), ("drep", drep)];
+                if self.r.chance(1, 2) {
+                    fields.reverse();
+                }
+                t.adhoc.push(adhoc("vote_delegation_certificate", fields));
+            }
         }
         if self.malformed && self.r.chance(1, 8) {
             t.adhoc.push(adhoc(
